@@ -322,6 +322,7 @@ fn pure_calls(p: &Pure, f: &[u8]) -> Vec<(&'static str, String)> {
     g("tls-raw-filter", guarded(|| p.fl.iter().map(|c| huginn_net_tls::raw_filter::apply(f, c) as u64).sum()));
     g("tcp-dispatch-hash", guarded(|| [1usize, 3, 64].iter().map(|&w| huginn_net_tcp::packet_hash::hash_source_ip(f).checked_rem(w).unwrap_or(0) as u64).sum()));
     g("http-dispatch-hash", guarded(|| [1usize, 3, 64].iter().map(|&w| huginn_net_http::packet_hash::hash_flow(f, w) as u64).sum()));
+    g("datalink-detect", guarded(|| huginn_net_tcp::packet_parser::detect_datalink_format(f).is_some() as u64 + huginn_net_http::packet_parser::detect_datalink_format(f).is_some() as u64 + huginn_net_tls::packet_parser::detect_datalink_format(f).is_some() as u64 + huginn_net::packet_parser::detect_datalink_format(f).is_some() as u64));
     g("tls-dispatch-hash", guarded(|| [1usize, 3, 64].iter().map(|&w| huginn_net_tls::packet_hash::hash_flow(f, w).unwrap_or(0) as u64).sum()));
     ps
 }
@@ -772,10 +773,17 @@ struct StreamSession {
     reader: huginn_net_tls::TlsClientHelloReader,
     ex: huginn_net_http::Http2FingerprintExtractor,
     procs: huginn_net_http::http_process::HttpProcessors,
+    /// parsers built through `with_config` with limits small enough that the universe's inputs exceed them
+    small: (huginn_net_http::http1_parser::Http1Parser, huginn_net_http::Http2Parser<'static>),
 }
 impl StreamSession {
     fn new() -> Self {
-        StreamSession { reader: huginn_net_tls::TlsClientHelloReader::new(), ex: huginn_net_http::Http2FingerprintExtractor::new(), procs: huginn_net_http::http_process::HttpProcessors::new() }
+        StreamSession { reader: huginn_net_tls::TlsClientHelloReader::new(), ex: huginn_net_http::Http2FingerprintExtractor::new(), procs: huginn_net_http::http_process::HttpProcessors::new(),
+            small: (
+                huginn_net_http::http1_parser::Http1Parser::with_config(huginn_net_http::http1_parser::Http1Config { max_headers: 2, max_request_line_length: 16, max_header_length: 16, preserve_header_order: false, parse_cookies: false, strict_parsing: true }),
+                huginn_net_http::Http2Parser::with_config(huginn_net_http::http2_parser::Http2Config { max_frame_size: 16, max_streams: 1, enable_hpack: true, strict_parsing: true }),
+            ),
+        }
     }
     /// feeds x to every stream entry point; returns panics
     fn feed(&mut self, x: &[u8]) -> Vec<(&'static str, String)> {
@@ -794,6 +802,22 @@ impl StreamSession {
         }
         if let Err(p) = guarded(|| self.procs.parse_response(x).is_some()) {
             ps.push(("http-parse-response", p));
+        }
+        // public helpers and configurable parsers that no analyzer path reaches with these settings
+        if let Err(p) = guarded(|| {
+            use huginn_net_http::{http1_process as h1, http2_process as h2};
+            h1::has_complete_headers(x) as u8 + h1::looks_like_http1_response(x) as u8 + h2::has_complete_data(x) as u8 + h2::looks_like_http2_response(x) as u8
+        }) {
+            ps.push(("http-stream-predicates", p));
+        }
+        if let Err(p) = guarded(|| huginn_net_tls::tls_process::parse_tls_client_hello_ja4(x).is_some()) {
+            ps.push(("tls-ja4-from-bytes", p));
+        }
+        if let Err(p) = guarded(|| {
+            let (a, b) = (&self.small.0, &self.small.1);
+            a.parse_request(x).is_ok() as u8 + a.parse_response(x).is_ok() as u8 + b.parse_request(x).is_ok() as u8 + b.parse_response(x).is_ok() as u8 + b.parse_frames(x).is_ok() as u8
+        }) {
+            ps.push(("configured-parsers", p));
         }
         ps
     }
